@@ -9,6 +9,7 @@
                 first gap of size >= n; fails when there is none.
      FreeOff(o) free(): removes the entry that starts at o (only live offsets -- the statement
                 quantifies over "frees of allocated offsets").
+     Reset      reset(): frees every allocated offset at once (segment reuse between calls).
 
    FirstFit = TRUE is the implementation's placement policy.  FirstFit = FALSE is the most general
    allocator the statement admits (any free offset); the property clauses are checked for both, so the
@@ -47,8 +48,13 @@ FreeOff(o) == \E i \in Idx(tbl) : /\ tbl[i].off = o
                                   /\ tbl' = RemoveAt(tbl, i)
                                   /\ last' = [op |-> "free", n |-> o, ret |-> 0]
 
+\* reset(): the segment is reused between calls -- every allocation is dropped at once
+Reset == /\ tbl' = <<>>
+         /\ last' = [op |-> "reset", n |-> 0, ret |-> 0]
+
 Next == \/ \E n \in 1..MaxReq : Alloc(n)
         \/ \E o \in {tbl[i].off : i \in Idx(tbl)} : FreeOff(o)
+        \/ (tbl # <<>> /\ Reset)
 Spec == Init /\ [][Next]_vars
 
 \* ------------------------------------------------------------------ the statement's clauses
